@@ -66,6 +66,17 @@ fn mode_prog(j: &J) -> String {
   r
 }
 
+fn mode_multi(j: &J) -> String {
+  let mut out: Vec<String> = vec![];
+  if let Some(srcs) = j["srcs"].as_array() {
+    for s in srcs {
+      let mut intrp = Interpreter::new(0);
+      out.push(eval(&mut intrp, s.as_str().unwrap_or("")));
+    }
+  }
+  format!("(multi {})", out.join(" "))
+}
+
 fn mode_session(j: &J) -> String {
   let mut intrp = Interpreter::new(0);
   let mut out: Vec<String> = vec![];
@@ -154,6 +165,7 @@ fn main() {
     let r = match mode.as_str() {
       "prog" => mode_prog(&j),
       "session" => mode_session(&j),
+      "multi" => mode_multi(&j),
       "bytecode" => mode_bytecode(&j),
       "loader" => mode_loader(&j),
       _ => "(badmode)".to_string(),
